@@ -207,6 +207,8 @@ def other_kind(v):
         return ['str', '%04d-%02d-%02d' % tuple(v[1:4])]
     if k == 'ref':
         return ['str', '@' + v[1]]
+    if k == 'dt':
+        return ['naive-datetime', v[1]]      # same wall-clock digits (UTC), no zone: not the same value
     return ['marker']
 
 
